@@ -1,0 +1,9 @@
+package model
+
+import "sync"
+
+// ContentGuard keeps the cleaner from removing a content between the moment a reader has
+// chosen a version and the moment it has opened that version's file: readers hold it shared
+// from the lookup to the open (store.Get, store.GetKeys), the cleaner holds it exclusively
+// while it removes one content. A file that is already open survives its removal.
+var ContentGuard sync.RWMutex
